@@ -63,13 +63,19 @@ func pk(b byte) core.PubKey {
 
 var pubkeys = []core.PubKey{pk(1), pk(2)}
 
+// mkData: variants 1 and 2 differ in the signature only, variants 3 and 4 carry the signatures of 1 and 2 over
+// another payload (so two variants may differ in signature, in payload, or in both).
 func mkData(duty core.Duty, variant, subcomm int) core.SignedData {
 	var s eth2p0.BLSSignature
-	s[0] = byte(variant)
-	if duty.Type == core.DutyRandao {
-		return core.NewSignedRandao(eth2p0.Epoch(duty.Slot), s)
+	s[0] = byte(2 - variant%2)
+	payload := 0
+	if variant > 2 {
+		payload = 1
 	}
-	return core.NewSyncCommitteeSelection(&eth2v1.SyncCommitteeSelection{ValidatorIndex: 5, Slot: eth2p0.Slot(duty.Slot), SubcommitteeIndex: uint64(subcomm), SelectionProof: s})
+	if duty.Type == core.DutyRandao {
+		return core.NewSignedRandao(eth2p0.Epoch(duty.Slot+uint64(1000*payload)), s)
+	}
+	return core.NewSyncCommitteeSelection(&eth2v1.SyncCommitteeSelection{ValidatorIndex: eth2p0.ValidatorIndex(5 + payload), Slot: eth2p0.Slot(duty.Slot), SubcommitteeIndex: uint64(subcomm), SelectionProof: s})
 }
 
 func js(d core.SignedData) string {
@@ -230,7 +236,7 @@ func runCase(rt *rapid.T) {
 				subcomm = rapid.IntRange(0, 1).Draw(rt, "ssubcomm")
 			}
 			for i := 0; i < nk; i++ {
-				variantOf[pubkeys[(i+rapid.IntRange(0, 1).Draw(rt, "spk"))%2]] = rapid.IntRange(1, 2).Draw(rt, "variant")
+				variantOf[pubkeys[(i+rapid.IntRange(0, 1).Draw(rt, "spk"))%2]] = rapid.SampledFrom([]int{1, 1, 2, 2, 3, 4}).Draw(rt, "variant")
 			}
 			// non-trivial: >=2 readers pending on >=2 distinct keys right now
 			distinct := map[key]bool{}
